@@ -44,27 +44,27 @@ def check(prop, tier, seed):
             print("HARNESS-ERROR case=%s: %s" % (case.get("id"), msg), flush=True)
         core.cleanup_scratch()
         return 2
-    # ---- triage failures: known findings (by predicate + neutralised twin) vs. violations
-    violations = []
-    seen_classes = set()
-    for case, res in failures:
-        kid = mod.known_finding(case, res)
-        if kid:
-            known_hits[kid] = known_hits.get(kid, 0) + 1
-            continue
-        key = res.get("class")
-        if key in seen_classes:
-            continue
-        seen_classes.add(key)
-        violations.append((case, res))
-    # known findings observed through dedicated sub-batches that passed their 'expected failure' oracle
+    # ---- triage failures: every failure must end up as a listed known finding or as a reported violation
     for kid, n in getattr(tally, "probes", {}).items():
         if kid.startswith("known:"):
             known_hits[kid[6:]] = known_hits.get(kid[6:], 0) + n
     rc = 0
     reported = 0
-    for case, res in violations[:3]:
-        small, small_res = core.minimise(mod, case, res, budget_s=90)
+    reported_classes = set()
+    attempts = 0
+    unexplained = None
+    for case, res in failures:
+        if mod.known_finding(case, res):
+            known_hits[mod.known_finding(case, res)] = known_hits.get(mod.known_finding(case, res), 0) + 1
+            continue
+        if res.get("class") in reported_classes:
+            continue
+        if reported >= 3 or attempts >= 10:
+            if unexplained is None:
+                unexplained = (case, res)
+            continue
+        attempts += 1
+        small, small_res = core.minimise(mod, case, res, budget_s=60)
         # replay must reproduce exactly, twice, before it is reported
         r1 = mod.run_case(small)
         r2 = mod.run_case(small)
@@ -79,10 +79,21 @@ def check(prop, tier, seed):
             small, small_res = case, r1
         kid = mod.known_finding(small, small_res)
         if kid:
+            # the minimised form is a listed finding; other failures of this class still get their own turn
             known_hits[kid] = known_hits.get(kid, 0) + 1
             continue
         path = core.write_replay(prop, seed, small, small_res)
         print("violation class=%s: %s" % (small_res.get("class"), small_res.get("msg")), flush=True)
+        print("VIOLATION property=%s replay=%s" % (prop, path), flush=True)
+        reported += 1
+        reported_classes.add(small_res.get("class"))
+        reported_classes.add(res.get("class"))
+        rc = max(rc, 1)
+    if unexplained is not None and reported == 0:
+        # never exit 0 with failures that were neither listed nor examined
+        case, res = unexplained
+        path = core.write_replay(prop, seed, case, res)
+        print("violation class=%s: %s" % (res.get("class"), res.get("msg")), flush=True)
         print("VIOLATION property=%s replay=%s" % (prop, path), flush=True)
         reported += 1
         rc = max(rc, 1)
